@@ -270,7 +270,8 @@ def _raising_tests(E: Engine, f) -> list[ast.AST]:
 
 
 def _declare_rules(E: Engine, rep: Report) -> None:
-    from .symutil import S as _Sd, is_ as _isd, raises_when as _rw
+    from .. import sym as _symD
+    from .symutil import S as _Sd, dnf as _dnfD, is_ as _isd, raises_when as _rw, sh as _shD
 
     dc = E.method(SEQ, "declare_channel")
     Sdc = _Sd(E, dc)
@@ -282,6 +283,28 @@ def _declare_rules(E: Engine, rep: Report) -> None:
     Scd = _Sd(E, cdm)
     rep.check(_rw(Scd, "dmm_id not in self.available_channels"), "DECLARE", "_config_detuning_map|not-available", "rejects a DMM id that is not available", "_config_detuning_map no longer rejects an unavailable DMM", E.where(cdm))
     rep.check(_rw(Scd, "self._in_xy"), "DECLARE", "_config_detuning_map|xy-excludes-dmm", "a DMM is refused in XY mode", "_config_detuning_map no longer refuses a DMM in XY mode", E.where(cdm))
+    # an id that the device must know is checked before the parametrized short-cut too: a stored call with an id the
+    # device does not have makes every later query of the sequence fail (declared_channels -> KeyError)
+    n_short = 0
+    for g in E.P.all_functions():
+        if g.module.name != "pulser.sequence.sequence" or g.kind == "overload" or "is_parametrized" not in norm(g.node):
+            continue
+        Sg = _Sd(E, g)
+        shortcuts = [l for l in Sg.logged("return") if l.fn == g.short and any(x == _symD.Pattern("self.is_parametrized()").term for x in _symD.conj_of(l.cond))]
+        if not shortcuts:
+            continue
+        member = []
+        for l in Sg.logged("raise"):
+            for conj_ in _dnfD(l.cond):
+                for x in conj_:
+                    if x[0] == "cmp" and x[1] == "NotIn" and x[2][0] == "name" and x[2][1] in g.params and x[3][0] == "attr" and x[3][1] in (_symD.Pattern("self._device").term, _symD.Pattern("self.device").term):
+                        member.append((x[2], x))
+        for idt, lit in {(a, b) for a, b in member}:
+            n_short += 1
+            ok_s = all(any(x == _symD.mk_not(lit) for x in _symD.conj_of(l.cond)) for l in shortcuts)
+            rep.check(ok_s, "MODE", f"{g.short}|{idt[1]}|device-membership-checked-before-parametrized-shortcut", f"`{idt[1]}` is known to the device on the path that returns early for a parametrized sequence", f"{g.short} returns early when the sequence is parametrized without having checked `{_shD(lit, 80)}`: the call is stored with an id the device does not have, and declared_channels / available_channels then raise KeyError on every later call", E.where(g))
+    if n_short < 1:
+        rep.error("no device-membership check next to a parametrized short-cut found (expected config_slm_mask / _config_detuning_map)")
     # an optional *qubit id* is tested with `is (not) None`: 0 and "" are legal ids, a truthiness test would treat
     # them as "no id given" (declare_channel(..., initial_target=0) would silently leave the channel without target)
     n_idp = 0
